@@ -18,6 +18,7 @@ from typing import Optional, TypeVar, Union
 import asynq
 from typing_extensions import Protocol
 
+from .analysis_lib import is_positional_only_arg_name
 from .error_code import ErrorCode
 from .node_visitor import ErrorContext
 from .options import Options, PyObjectSequenceOption
@@ -250,6 +251,16 @@ def compute_parameters(
     args += [(ParameterKind.KEYWORD_ONLY, arg) for arg in node.args.kwonlyargs]
     if node.args.kwarg is not None:
         args.append((ParameterKind.VAR_KEYWORD, node.args.kwarg))
+    # PEP 484: a parameter named __x (without trailing __) is positional-only, and so is
+    # everything before it. Signatures built from runtime objects and from stubs
+    # already follow this convention.
+    for i, (kind, arg) in enumerate(args):
+        if kind is ParameterKind.POSITIONAL_OR_KEYWORD and is_positional_only_arg_name(
+            arg.arg
+        ):
+            args[: i + 1] = [
+                (ParameterKind.POSITIONAL_ONLY, earlier) for _, earlier in args[: i + 1]
+            ]
     params = []
     tv_index = 1
 
